@@ -15,7 +15,8 @@ RULE = ('random crystals: Bravais type drawn from all 3-D (11) and 2-D (5) syste
 ASSUMPTIONS = ['positions compared modulo the lattice with tolerance 1e-6 (the class threshold is 1e-8)',
                'atoms closer than 0.25 (lattice units) are not generated']
 REQUIRED_OBS = {'crystals_checked': 20, 'eval:C18:closure': 20, 'eval:C18:atom-map': 100, 'nosym_crystals': 2,
-                'spin_crystals': 2, 'dim2_crystals': 3, 'noreduce_supercells': 3, 'antiferromagnets': 5, 'afm_with_threefold_axis': 5}
+                'spin_crystals': 2, 'dim2_crystals': 3, 'noreduce_supercells': 3, 'antiferromagnets': 5, 'afm_with_threefold_axis': 5,
+                'noncollinear_textures_order>2': 15, 'eval:C18:texture-generator-reported': 20}
 PER_CASE = 6
 
 
@@ -122,4 +123,59 @@ def run_case(case):
                     mon.count('afm_with_threefold_axis', any(abs(np.trace(g.cartrot)) < 1e-9 for g in crys.G))
                     mon.seen('afm_group_orders', len(crys.G))
                     mon.sig([nm, len(crys.G), round(c, 3)])
+    if case['idx'] % 2 == 1:
+        # directed non-collinear vector-spin textures: random moments symmetrised over the cyclic group generated by one operation g0 of
+        # order > 2 (3-, 4-, 6-fold rotations, rotoinversions, screw axes) of a symmetric crystal, optionally with the alternating
+        # phase (-1)^k. The texture is invariant under g0 by construction, so g0 must be reported (with its atom map), every reported
+        # operation must map moments onto moments (contract), and the reported set must be closed.
+        from vmon.contracts import wrap_half
+        for rep in range(3):
+            nm = ('kagome', 'honey', 'hcp', 'fcc', 'bcc', 'diamond', 'omega', 'tria', 'square', 'sc', 'l12', 'b2', 'tet', 'dhcp')[int(rng.integers(14))]
+            P0, chem0, _ = gen.named(nm)
+            dim = P0.dim
+            if sum(len(l) for l in P0.basis) < 3:
+                # one or two atoms per cell only give collinear textures: use the doubled cell (non-reduced description)
+                from vmon.ref import equiv
+                latt2, sb2 = equiv.supercell_description(P0, 2 * np.eye(dim, dtype=int), None, permute=False)
+                P0 = crystal.Crystal(latt2, [[np.array(u) for u in lst] for lst in sb2], noreduce=True)
+            cands = [g for g in P0.G if not np.array_equal(g.rot @ g.rot, np.eye(dim, dtype=int))]
+            if not cands: continue
+            g0 = cands[int(rng.integers(len(cands)))]
+            powers, g = [], g0
+            for k in range(1, 25):
+                powers.append((k, g))
+                if np.array_equal(g.rot, np.eye(dim, dtype=int)) and np.all(np.abs(wrap_half(g.trans)) < 1e-8): break
+                g = g0 * g
+            else:
+                continue
+            order = len(powers)
+            alt = order % 2 == 0 and rng.uniform() < 0.4
+            r = [[rng.normal(size=dim) for _ in lst] for lst in P0.basis]
+            spins = [[np.zeros(dim) for _ in lst] for lst in P0.basis]
+            for k, g in powers:
+                for c, lst in enumerate(P0.basis):
+                    for i in range(len(lst)):
+                        spins[c][g.indexmap[c][i]] = spins[c][g.indexmap[c][i]] + ((-1.) ** k if alt else 1.) * (g.cartrot @ r[c][i])
+            amp = max(np.linalg.norm(v) for l in spins for v in l)
+            if amp < 1e-6: continue
+            allv = np.array([v for l in spins for v in l])
+            noncollinear = np.linalg.matrix_rank(allv, tol=1e-6 * amp) > 1
+            tagsx = ['vector-texture', nm, 'order%d' % order] + (['alternating'] if alt else [])
+            with contracts.active(mon):
+                with mon.guard('C18:construct', tags=tagsx):
+                    crys = crystal.Crystal(P0.lattice, [[u.copy() for u in lst] for lst in P0.basis], spins=spins, noreduce=True)
+                    mon.count('vector_textures')
+                    mon.count('noncollinear_textures', noncollinear)
+                    mon.count('noncollinear_textures_order>2', noncollinear and order > 2)
+                    mon.count('alternating_textures', alt)
+                    # the generating operation, expressed in the (possibly re-ordered) crystal
+                    hit = [h for h in crys.G if np.allclose(h.cartrot, g0.cartrot, atol=1e-8)]
+                    cart_t = P0.lattice @ g0.trans
+                    found = any(np.all(np.abs(wrap_half(np.linalg.solve(crys.lattice, cart_t) - h.trans)) < 1e-6) for h in hit) \
+                        if np.allclose(crys.lattice, P0.lattice) else bool(hit)
+                    mon.check(found, 'C18:texture-generator-reported',
+                              lambda: '%s: operation rot=%s trans=%s of order %d leaves the symmetrised texture invariant (alternating=%s) but is not '
+                                      'reported; %d operations reported; spins=%s' % (nm, g0.rot.tolist(), g0.trans.tolist(), order, alt, len(crys.G),
+                                                                                     [[np.round(v, 6).tolist() for v in l] for l in spins]), tagsx)
+                    mon.sig(['texture', nm, order, alt, len(crys.G)])
     return mon.result(sample=sample)
